@@ -14,6 +14,7 @@ import (
 	"github.com/hashicorp/raft"
 	"github.com/rqlite/rqlite/v10/db"
 	"github.com/rqlite/rqlite/v10/internal/fsutil"
+	"github.com/rqlite/rqlite/v10/internal/verifhook"
 	"github.com/rqlite/rqlite/v10/snapshot/plan"
 )
 
@@ -48,6 +49,9 @@ func Upgrade7To8(old, new string, logger *log.Logger) (retErr error) {
 		if err := os.RemoveAll(newTmpDir); err != nil {
 			return fmt.Errorf("failed to remove temporary upgraded snapshot directory %s: %s", newTmpDir, err)
 		}
+		if err := verifhook.Hit("upgrade7to8.after-stale-tmp-remove"); err != nil {
+			return err
+		}
 	}
 
 	if !fsutil.DirExists(old) {
@@ -73,6 +77,9 @@ func Upgrade7To8(old, new string, logger *log.Logger) (retErr error) {
 		if err := os.RemoveAll(old); err != nil {
 			return fmt.Errorf("failed to remove old snapshot directory %s: %s", old, err)
 		}
+		if err := verifhook.Hit("upgrade7to8.after-old-remove-new-exists"); err != nil {
+			return err
+		}
 		logger.Printf("removed old snapshot directory %s as no upgrade is needed", old)
 		return nil
 	}
@@ -80,6 +87,9 @@ func Upgrade7To8(old, new string, logger *log.Logger) (retErr error) {
 	// Start the upgrade process.
 	if err := os.MkdirAll(newTmpDir, 0755); err != nil {
 		return fmt.Errorf("failed to create temporary snapshot directory %s: %s", newTmpDir, err)
+	}
+	if err := verifhook.Hit("upgrade7to8.after-tmp-mkdir"); err != nil {
+		return err
 	}
 
 	oldMeta, err := getNewest7Snapshot(old)
@@ -97,8 +107,14 @@ func Upgrade7To8(old, new string, logger *log.Logger) (retErr error) {
 	if err := os.MkdirAll(newSnapshotPath, 0755); err != nil {
 		return fmt.Errorf("failed to create new snapshot directory %s: %s", newSnapshotPath, err)
 	}
+	if err := verifhook.Hit("upgrade7to8.after-snap-mkdir"); err != nil {
+		return err
+	}
 	if err := writeMeta(newSnapshotPath, oldMeta); err != nil {
 		return fmt.Errorf("failed to write new snapshot meta file to %s: %s", newSnapshotPath, err)
+	}
+	if err := verifhook.Hit("upgrade7to8.after-meta"); err != nil {
+		return err
 	}
 
 	// Ensure all file handles are closed before any directory is renamed or removed.
@@ -108,6 +124,9 @@ func Upgrade7To8(old, new string, logger *log.Logger) (retErr error) {
 		newSqliteFd, err := os.Create(newSqlitePath)
 		if err != nil {
 			return fmt.Errorf("failed to create new SQLite file %s: %s", newSqlitePath, err)
+		}
+		if err := verifhook.Hit("upgrade7to8.after-db-create"); err != nil {
+			return err
 		}
 		defer newSqliteFd.Close()
 
@@ -146,11 +165,17 @@ func Upgrade7To8(old, new string, logger *log.Logger) (retErr error) {
 			if !db.IsValidSQLiteFile(newSqlitePath) {
 				return fmt.Errorf("migrated SQLite file %s is not valid", newSqlitePath)
 			}
+			if err := verifhook.Hit("upgrade7to8.after-db-copy"); err != nil {
+				return err
+			}
 		}
 
 		// Ensure database file exists and convert to WAL mode.
 		if err := db.EnsureWALMode(newSqlitePath); err != nil {
 			return fmt.Errorf("failed to convert migrated SQLite file %s to WAL mode: %s", newSqlitePath, err)
+		}
+		if err := verifhook.Hit("upgrade7to8.after-walmode"); err != nil {
+			return err
 		}
 		return nil
 	}(); err != nil {
@@ -161,13 +186,22 @@ func Upgrade7To8(old, new string, logger *log.Logger) (retErr error) {
 	if err := os.Rename(newTmpDir, new); err != nil {
 		return fmt.Errorf("failed to move temporary snapshot directory %s to %s: %s", newTmpDir, new, err)
 	}
+	if err := verifhook.Hit("upgrade7to8.after-rename"); err != nil {
+		return err
+	}
 	if err := fsutil.SyncDirParentMaybe(new); err != nil {
 		return fmt.Errorf("failed to sync parent directory of new snapshot directory %s: %s", new, err)
+	}
+	if err := verifhook.Hit("upgrade7to8.after-parent-sync"); err != nil {
+		return err
 	}
 
 	// We're done! Remove old.
 	if err := fsutil.RemoveDirSync(old); err != nil {
 		return fmt.Errorf("failed to remove old snapshot directory %s: %s", old, err)
+	}
+	if err := verifhook.Hit("upgrade7to8.after-old-remove"); err != nil {
+		return err
 	}
 	logger.Printf("upgraded v7 snapshot directory %s to %s", old, new)
 	stats.Add(upgradeOk, 1)
@@ -194,8 +228,14 @@ func Upgrade8To10(old, new string, logger *log.Logger) (retErr error) {
 
 	planPath := filepath.Join(filepath.Dir(new), upgrade8To10Plan)
 
+	if err := verifhook.Hit("upgrade8to10.begin"); err != nil {
+		return err
+	}
 	// Remove incomplete plan file from an interrupted write.
 	os.Remove(planPath + ".tmp")
+	if err := verifhook.Hit("upgrade8to10.after-plan-tmp-remove"); err != nil {
+		return err
+	}
 
 	// Check for existing plan (crash recovery).
 	if fsutil.FileExists(planPath) {
@@ -207,7 +247,13 @@ func Upgrade8To10(old, new string, logger *log.Logger) (retErr error) {
 		if err := p.Execute(plan.NewExecutor()); err != nil {
 			return fmt.Errorf("executing resumed upgrade plan: %w", err)
 		}
+		if err := verifhook.Hit("upgrade8to10.resume.after-execute"); err != nil {
+			return err
+		}
 		os.Remove(planPath)
+		if err := verifhook.Hit("upgrade8to10.resume.after-plan-remove"); err != nil {
+			return err
+		}
 		logger.Printf("resumed and completed upgrade of v8 snapshot directory to %s", new)
 		stats.Add(upgradeOk, 1)
 		return nil
@@ -235,6 +281,9 @@ func Upgrade8To10(old, new string, logger *log.Logger) (retErr error) {
 		logger.Printf("new snapshot directory %s exists", new)
 		if err := os.RemoveAll(old); err != nil {
 			return fmt.Errorf("failed to remove old snapshot directory %s: %s", old, err)
+		}
+		if err := verifhook.Hit("upgrade8to10.after-old-remove-new-exists"); err != nil {
+			return err
 		}
 		logger.Printf("removed old snapshot directory %s as no upgrade is needed", old)
 		return nil
@@ -270,19 +319,31 @@ func Upgrade8To10(old, new string, logger *log.Logger) (retErr error) {
 	p.AddRename(newTmpDir, new)
 	p.AddRemoveAll(old)
 
+	if err := verifhook.Hit("upgrade8to10.before-plan-write"); err != nil {
+		return err
+	}
 	// Persist the plan for crash recovery.
 	if err := plan.WriteToFile(p, planPath); err != nil {
 		return fmt.Errorf("writing upgrade plan: %w", err)
+	}
+	if err := verifhook.Hit("upgrade8to10.after-plan-write"); err != nil {
+		return err
 	}
 
 	// Execute the plan.
 	if err := p.Execute(plan.NewExecutor()); err != nil {
 		return fmt.Errorf("executing upgrade plan: %w", err)
 	}
+	if err := verifhook.Hit("upgrade8to10.after-execute"); err != nil {
+		return err
+	}
 
 	// Clean up the plan file.
 	if err := os.Remove(planPath); err != nil {
 		logger.Printf("failed to remove upgrade plan file %s: %v", planPath, err)
+	}
+	if err := verifhook.Hit("upgrade8to10.after-plan-remove"); err != nil {
+		return err
 	}
 	logger.Printf("upgraded v8 snapshot directory %s to %s", old, new)
 	stats.Add(upgradeOk, 1)
